@@ -22,6 +22,19 @@
 (* key trees, checks Part 1 = Part 2 on each and prints the case table     *)
 (* that cryptodrv instantiates with real keys.                             *)
 (*                                                                         *)
+(* Part 3b is the SLOT-SHAPE table: for a multisignature key every slot    *)
+(* (every leaf position, and every slot that expects a nested              *)
+(* multisignature as a whole) is filled independently with the signature   *)
+(* that belongs there ("G"), a well-formed or damaged signature that does  *)
+(* not ("W": another listed key's, over the other message, a flipped byte) *)
+(* or NOTHING ("E": zero bytes, which amino decodes to a nil slot).  The    *)
+(* multisignature always has the key's own shape and slot count, so the    *)
+(* count check passes and only the per-slot check can refuse: VerifyBytes  *)
+(* must be false whenever any slot is empty (Inv_EmptySlotNeverVerifies),  *)
+(* all-empty and exactly-one-empty at each position included, for flat,    *)
+(* nested and doubly nested keys (SlotKeyTrees adds trees with 4 leaves    *)
+(* that the arrangements of Part 3 do not reach).                          *)
+(*                                                                         *)
 (* Part 4 transcribes MultiSignature.AddSignatureByIndex (the code pads    *)
 (* up to index-1, so a signature added beyond the end lands one position   *)
 (* early): not part of the property ("verifies only when ..."), compared   *)
@@ -135,10 +148,51 @@ Comps(n) ==
 
 Sigs == Atoms \cup { MSig(q) : q \in UNION { Comps(n) : n \in 0..MaxLeaves } }
 
+-----------------------------------------------------------------------------
+(* Part 3b: slot shapes                                                    *)
+
+\* further multisignature keys for the slot-shape table only (4 leaves; both slots nested)
+SlotKeyTrees ==
+    { MKey(<<MKey(<<SKey(1), SKey(2)>>), MKey(<<SKey(3), SKey(1)>>)>>),
+      MKey(<<SKey(1), SKey(2), SKey(3), SKey(1)>>),
+      MKey(<<SKey(2), MKey(<<SKey(1), SKey(3), SKey(2)>>)>>) }
+
+OtherKey(i) == (i % NK) + 1
+\* what a leaf slot of key i can hold: G the signature that belongs there; W one that does not; E nothing
+LeafFills(i) ==
+    { Atom("s", i, Msg),                                                   \* G
+      Atom("s", OtherKey(i), Msg), Atom("s", i, OtherMsg), Atom("mut", i, Msg),   \* W
+      Atom("empty", 0, 0) }                                                \* E
+
+RECURSIVE ProdSeq(_, _)
+\* all sequences q of length n with q[i] \in F[i]
+ProdSeq(F, n) == IF n = 0 THEN { <<>> } ELSE { Append(q, e) : q \in ProdSeq(F, n - 1), e \in F[n] }
+
+RECURSIVE SlotSigs(_)
+\* every filling of the slots of K: a multisignature of K's own shape, or - for a nested slot - nothing at all
+SlotSigs(K) ==
+    IF K.t = "k" THEN LeafFills(K.k)
+    ELSE { Atom("empty", 0, 0) } \cup
+         { MSig(q) : q \in ProdSeq([i \in 1..Len(K.c) |-> SlotSigs(K.c[i])], Len(K.c)) }
+
+RECURSIVE Flatten(_)
+Flatten(qq) == IF qq = <<>> THEN <<>> ELSE Head(qq) \o Flatten(Tail(qq))
+RECURSIVE SlotShape(_, _)
+\* the slot-shape vector of s relative to K, slot by slot from left to right: "G" / "W" / "E" as above, "X" where s
+\* does not have K's shape (an atom where a multisignature is expected or the reverse, another number of components)
+SlotShape(K, s) ==
+    IF s.t = "empty" THEN <<"E">>
+    ELSE IF K.t = "k" THEN << IF s = Atom("s", K.k, Msg) THEN "G" ELSE IF s.t = "ms" THEN "X" ELSE "W" >>
+    ELSE IF s.t # "ms" \/ Len(s.c) # Len(K.c) THEN <<"X">>
+    ELSE Flatten([i \in 1..Len(K.c) |-> SlotShape(K.c[i], s.c[i])])
+HasSlot(v, x) == \E i \in 1..Len(v) : v[i] = x
+
 \* the key tree is chosen initially, the arrangement by the only step (TLC's workers share them)
 NoSig == Atom("none", 0, 0)
-Init == key \in KeyTrees /\ sig = NoSig
-Next == sig = NoSig /\ sig' \in Sigs /\ key' = key
+Init == key \in KeyTrees \cup SlotKeyTrees /\ sig = NoSig
+Next == /\ sig = NoSig
+        /\ sig' \in (IF key \in KeyTrees THEN Sigs ELSE {}) \cup (IF key.t = "mk" THEN SlotSigs(key) ELSE {})
+        /\ key' = key
 Chosen == sig # NoSig
 
 \* the transcribed verification accepts exactly the arrangements the property describes
@@ -147,6 +201,14 @@ Inv_VerifyIffSignedInPosition == Chosen => (Verify(key, Msg, sig) <=> SignedInPo
 Inv_BindsMessage ==
     (Chosen /\ Verify(key, Msg, sig)) => \A l \in SigLeaves(sig, <<>>) : l[2].t = "s" /\ l[2].m = Msg
 
+\* a multisignature with the key's slot count in which some slot is empty never verifies, whatever the other
+\* slots hold - at the top level and inside nested multisignatures
+Inv_EmptySlotNeverVerifies ==
+    (Chosen /\ key.t = "mk" /\ HasSlot(SlotShape(key, sig), "E")) => ~Verify(key, Msg, sig)
+\* and one whose slots all hold the signature that belongs there does
+Inv_AllGoodSlotsVerify ==
+    (Chosen /\ key.t = "mk" /\ \A i \in 1..Len(SlotShape(key, sig)) : SlotShape(key, sig)[i] = "G") => Verify(key, Msg, sig)
+
 \* ---- case table -----------------------------------------------------------
 RECURSIVE EncKey(_)
 EncKey(K) == IF K.t = "k" THEN <<"k", K.k>> ELSE <<"mk", [i \in 1..Len(K.c) |-> EncKey(K.c[i])]>>
@@ -154,7 +216,9 @@ RECURSIVE EncSig(_)
 EncSig(s) == IF s.t = "ms" THEN <<"ms", [i \in 1..Len(s.c) |-> EncSig(s.c[i])]>>
              ELSE <<s.t, s.k, s.m>>
 
-PrintCase == Chosen => PrintT(ToJson([key |-> EncKey(key), sig |-> EncSig(sig), ok |-> Verify(key, Msg, sig)]))
+\* slots: the slot-shape vector (multisignature keys; <<>> for a simple key)
+PrintCase == Chosen => PrintT(ToJson([key |-> EncKey(key), sig |-> EncSig(sig), ok |-> Verify(key, Msg, sig),
+                                      slots |-> IF key.t = "mk" THEN SlotShape(key, sig) ELSE <<>>]))
 
 -----------------------------------------------------------------------------
 (* Part 4: MultiSignature.AddSignatureByIndex (0-based index), conformance  *)
